@@ -317,6 +317,26 @@ fn judge_c14(w: &mut World, c: &Circuit, sat: Option<bool>, sites: &[(Fq, bool, 
                     None => {}
                 }
             }
+            Rel::IsEq { a, b, out } => {
+                // decaf equality is defined on coordinates (X1*Y2 = Y1*X2); the gadget must agree with the
+                // native comparison on whatever the two variables hold, elements or not
+                if let (Some(Ok(x)), Some(Ok(y)), Some(o)) = (val_e(w, *a), val_e(w, *b), val_b(w, *out)) {
+                    if o != (x == y) {
+                        w.viol(
+                            "C14",
+                            "sat_but_output_differs",
+                            format!("gadget=is_eq;native={};hints={}", x == y, hk),
+                            format!(
+                                "is_eq returned {} on coordinates whose native comparison is {}",
+                                o,
+                                x == y
+                            ),
+                        );
+                    } else {
+                        w.probe("relation_checked_on_satisfied_system");
+                    }
+                }
+            }
             Rel::Sign { inp, out, what } => {
                 if let (Some(x), Some(b)) = (val_f(w, *inp), val_b(w, *out)) {
                     let want = is_neg(&x) == (*what == "is_negative");
